@@ -564,6 +564,10 @@ def register(M):
         x = deref_arg(ev, args[1])
         if v.op == "seq":
             return tm.or_(*[tm.eq(x, e) for e in v.a])
+        if v.op == "dedup" and v.a[0].op == "seq":
+            # the distinct values of an iterator contain c iff some element equals c
+            y = tm.fresh("y")
+            return tm.or_(*([tm.eq(x, e) for e in v.a[0].a] + [M.any_term(v.a[1], tm.lam([y], tm.eq(y, x)))]))
         return mk("contains", v, x)
 
     @reg("std::collections::HashSet::<T, S, A>::contains")
@@ -794,8 +798,46 @@ def register(M):
                 if v.op in ("seq", "emap"):
                     return iter_mut_explicit(ev, place_of_ref(a), v)
                 return mk("iter_mut", a)
+            if v.op == "dedup":
+                d = dedup_iter(ev, prog, fty, v)
+                if d is not None:
+                    return d
             return M.to_iter(ev, v)
+        if isinstance(a, tm.T) and a.op == "dedup":
+            d = dedup_iter(ev, prog, fty, a)
+            if d is not None:
+                return d
         return M.to_iter(ev, a)
+
+    def dedup_iter(ev, prog, fty, v):
+        """Iterating the distinct values of a list of fieldless-enum values: one (gated) item per variant.  The order
+        (first occurrence) is not represented: the iterator is marked like a hash-ordered one, so that order-sensitive
+        consumers are examined by the same rules."""
+        if not (v.a[0].op == "seq" and not v.a[0].a):
+            return None
+        for tid in fty.get("args", []) + ((fty.get("resolved") or {}).get("args", [])):
+            try:
+                t = prog.types[prog.peel_refs(tid)]
+            except Exception:
+                continue
+            el = None
+            if t.get("k") == "adt" and str(t.get("path", "")).endswith("vec::Vec") and t.get("args"):
+                el = t["args"][0]
+            elif t.get("k") == "slice":
+                el = t.get("t")
+            if el is None:
+                continue
+            vs = prog.fieldless_enum_variants(el)
+            if vs is None:
+                continue
+            path = _norm_adt(prog.types[prog.peel_refs(el)]["path"])
+            y = tm.fresh("y")
+            args_ = []
+            for i, _n in vs:
+                kc = tm.adt(path, i)
+                args_.extend([M.any_term(v.a[1], tm.lam([y], tm.eq(y, kc))), kc])
+            return M.mark_hashy(mk("eiter", *args_))
+        return None
 
     def iter_mut_explicit(ev, pl, v, mode="iter"):
         args = []
